@@ -52,7 +52,8 @@ class P(Prop):
             "(exact stream) or away from thresholds (realistic stream), looked up through PmsLoadTable.on_pattern; (equal) the "
             "equal-size rule _ideal_number_of_gensets_on incl. exact multiples; (run) MachineryCalculation."
             "calculate_machinery_system_output_from_statistics on 1-2 switchboard plants with gensets of different ratings listed "
-            "in arbitrary order: per step the statuses must be a valid selection for the step's total load. "
+            "in arbitrary order: per step the statuses must be a valid selection for the step's total load; (sim) feems.runsimulation."
+            "run_simulation with the load-table interface, the load of one switchboard given as a single value or as a series. "
             "Non-trivial = at least 2 sources")
     QUICK_N = 260
     THOROUGH_N = 3000
@@ -69,8 +70,10 @@ class P(Prop):
                 out.append(self.gen_table(rng))
             elif u < 0.78:
                 out.append(self.gen_equal(rng))
-            else:
+            elif u < 0.9:
                 out.append(self.gen_run(rng))
+            else:
+                out.append(self.gen_sim(rng))
         if tier == "thorough" and not override:
             # all rating multisets from {1,2,3,4} x 250 kW up to 4 units x every threshold and +-1/8
             for nn in range(1, 5):
@@ -143,9 +146,47 @@ class P(Prop):
         return {"stream": "run", "plant": {"comps": comps, "breakers": breakers, "swbs": swbs}, "pct": pct,
                 "prop": prop, "aux": aux, "dur": dur}
 
+    def gen_sim(self, rng):
+        """run_simulation with the load-table interface: two switchboards, one load each; the load of one switchboard may be
+        given as a single value (a constant) while the other carries a series"""
+        comps = []
+        for i in range(rng.randint(2, 4)):
+            comps.append({"name": f"g{i}", "cls": "genset", "swb": 1 + i % 2, "rated": Fraction(rng.randint(2, 14) * 50)})
+        total = sum(c["rated"] for c in comps)
+        comps += [{"name": "l1", "cls": "load", "swb": 1, "rated": Fraction(20000), "eff": [1.0]},
+                  {"name": "l2", "cls": "load", "swb": 2, "rated": Fraction(20000), "eff": [1.0]}]
+        f = rng.choice(EXACT_F + [Fraction(4, 5), Fraction(9, 10)])
+        n = rng.randint(2, 8)
+        const = Fraction(rng.randint(0, 24), 64) * total * f
+        series = [Fraction(rng.randint(0, 64), 64) * total * f for _ in range(n)]
+        return {"stream": "sim", "plant": {"comps": comps, "breakers": [[1, 2]], "swbs": [1, 2]}, "f": f, "series": series, "const": const,
+                "const_as": rng.choice(["single-value", "single-value", "series"]), "const_on": rng.choice([1, 2])}
+
     # ------------------------------------------------------------------------------------------
     def run(self, case):
         st = case["stream"]
+        if st == "sim":
+            from feems.components_model.utility import IntegrationMethod
+            from feems.runsimulation import run_simulation
+            from RunFeemsSim.pms_basic import PmsLoadTable, PmsLoadTableSimulationInterface, min_load_table_dict
+            sysm, objs = pg.build_electric_system(case["plant"])
+            byname = {d["name"]: o for d, o in zip(case["plant"]["comps"], objs)}
+            n = len(case["series"])
+            ser = np.array([float(x) for x in case["series"]])
+            cst = np.array([float(case["const"])]) if case["const_as"] == "single-value" else np.full(n, float(case["const"]))
+            a, b = ("l2", "l1") if case["const_on"] == 2 else ("l1", "l2")
+            byname[a].power_input = cst
+            byname[b].power_input = ser
+            sysm.set_time_interval(np.ones(n), IntegrationMethod.sum_with_time)
+            srcs = list(sysm.power_sources)
+            table = PmsLoadTable(min_load2on_pattern=min_load_table_dict([float(s.rated_power) for s in srcs], float(case["f"])))
+            with np.errstate(all="ignore"):
+                run_simulation(electric_power_system=sysm, simulation_interface=PmsLoadTableSimulationInterface(n_bus_ties=1, pms_load_table=table))
+            status = np.array([np.broadcast_to(np.asarray(s.status, dtype=bool), (n,)) for s in srcs])
+            outp = np.array([np.broadcast_to(np.asarray(s.power_output, dtype=float), (n,)) for s in srcs])
+            return {"rs": [float(s.rated_power) for s in srcs], "status": [[bool(x) for x in status[:, t]] for t in range(n)],
+                    "out": [[float(x) for x in outp[:, t]] for t in range(n)], "load": [float(x) + float(case["const"]) for x in case["series"]],
+                    "f": float(case["f"])}
         if st == "table":
             from RunFeemsSim.pms_basic import PmsLoadTable, min_load_table_dict
             t = PmsLoadTable(min_load_table_dict([float(r) for r in case["rs"]], float(case["f"])))
@@ -221,7 +262,7 @@ class P(Prop):
         for t, (l, s, o) in enumerate(zip(obs["load"], obs["status"], obs["out"])):
             why = brute_ok(rs, f, Fraction(l), s)
             if why:
-                return f"MachineryCalculation step {t}: sources {list(map(float, rs))}, status {s}: {why}"
+                return f"{'run_simulation' if st == 'sim' else 'MachineryCalculation'} step {t}: sources {list(map(float, rs))}, status {s}: {why}"
             can_avoid = any(f * sum(r for r, b in zip(rs, p) if b) > Fraction(l)
                             for p in itertools.product([False, True], repeat=len(rs)) if any(p))
             for r, b, out in zip(rs, s, o):
@@ -249,6 +290,8 @@ class P(Prop):
                 t.append("negative-load")
             if len(set(case["rs"])) < len(case["rs"]):
                 t.append("equal-ratings-present")
+        if case["stream"] == "sim":
+            t.append("constant-load-given-as-" + case["const_as"])
         if case["stream"] == "run":
             t.append(f"nswb={len(case['plant']['swbs'])}")
             src = [c for c in case["plant"]["comps"] if pg.kind_of(c["cls"]) == "Source"]
